@@ -12,6 +12,7 @@ from pyvc.corevc import NAME, OBJ, View, AObj, ZBag, ZMapBag, SV, wrap
 
 D = z3.Const('d', NAME)
 X = z3.Const('x', OBJ)
+D0 = z3.Const('d0', NAME)
 
 
 def cls():
@@ -65,6 +66,7 @@ class TrackerSpec(corevc.Spec):
         if self.method == 'met_dependents':
             self.YP0 = z3.K(NAME, z3.K(OBJ, z3.IntVal(0)))
             it.ghost['YP'] = self.YP0
+            it.ghost['src'] = corevc.fresh('src', z3.ArraySort(OBJ, NAME))      # ghost: the met key a dependent was last released from
             it.ghost['pre'] = me.snap()
         return args, info
 
@@ -74,12 +76,16 @@ class TrackerSpec(corevc.Spec):
         YP = it.ghost['YP']
         d, x = corevc.to_term(met), corevc.to_term(v)
         it.ghost['YP'] = z3.Store(YP, d, z3.Store(YP[d], x, YP[d][x] + 1))
+        it.ghost['src'] = z3.Store(it.ghost['src'], x, d)
 
     def havoc(self, it, selfobj, attrs, frame, local_names):
         super().havoc(it, selfobj, attrs, frame, local_names)
         if self.method == 'met_dependents':
             it.ghost['YP'] = corevc.fresh('YP', z3.ArraySort(NAME, z3.ArraySort(OBJ, z3.IntSort())))
+            it.ghost['src'] = corevc.fresh('src', z3.ArraySort(OBJ, NAME))
             it.yielded = ZBag.havoc(OBJ, 'yielded')
+            for f in it.yielded.wf():
+                it.run.fact(f)
 
     def loop_invariant(self, node):
         if self.method != 'met_dependents':
@@ -97,6 +103,11 @@ class TrackerSpec(corevc.Spec):
                     z3.ForAll([X], z3.And(U.cnt[D][X] == U0.cnt[D][X], YP[D][X] == 0)))))),
                 ('conservation', z3.ForAll([D, X], z3.Implies(M0.cnt[D] > 0, YP[D][X] + U.cnt[D][X] == U0.cnt[D][X]))),
                 ('released-nonneg', z3.ForAll([D, X], YP[D][X] >= 0)),
+                # what was handed out (the yielded bag) against the pair ghost: never less than any single key released, always from
+                # some key, and exactly the releases of one key when no other key released that dependent
+                ('handed-out-covers-each-key', z3.ForAll([D, X], YP[D][X] <= it.yielded.cnt[X])),
+                ('handed-out-has-a-source', z3.ForAll([X], z3.Implies(it.yielded.cnt[X] > 0, YP[it.ghost['src'][X]][X] > 0))),
+                ('handed-out-exactly-when-one-key', z3.ForAll([D0, X], z3.Implies(z3.ForAll([D], z3.Implies(D != D0, YP[D][X] == 0)), it.yielded.cnt[X] == YP[D0][X]))),
                 ('met-shrinks', z3.ForAll([D], z3.And(M.cnt[D] >= 0, M.cnt[D] <= M0.cnt[D]))),
                 ('waiting-key-stays-met', z3.ForAll([D], z3.Implies(z3.And(M0.cnt[D] > 0, U.has[D]), M.cnt[D] > 0))),
                 ('no-new-keys', z3.ForAll([D], z3.Implies(U.has[D], U0.has[D]))),
@@ -157,6 +168,10 @@ class TrackerSpec(corevc.Spec):
         elif m == 'met_dependents':
             YP = it.ghost['YP']
             Y = it.yielded
+            src = it.ghost['src']
+            out += [('handed-out-covers-each-key', z3.ForAll([D, X], YP[D][X] <= Y.cnt[X])),
+                    ('handed-out-has-a-source', z3.ForAll([X], z3.Implies(Y.cnt[X] > 0, YP[src[X]][X] > 0))),
+                    ('handed-out-exactly-when-one-key', z3.ForAll([D0, X], z3.Implies(z3.ForAll([D], z3.Implies(D != D0, YP[D][X] == 0)), Y.cnt[X] == YP[D0][X])))]
             out += [('met-drained', M.size == 0),
                     ('released-exactly-the-registered-waiters-of-met-dependencies',
                      z3.ForAll([D, X], YP[D][X] == z3.If(z3.And(M0.cnt[D] > 0, U0.has[D]), U0.cnt[D][X], 0))),
